@@ -25,6 +25,8 @@ pub enum Mut {
     Header { field: u8, value: u64 },
     /// header field set relative to the real file length
     HeaderRel { field: u8, delta: i16 },
+    /// section header field (1 length, 2 data offset, 3 index offset) set relative to the real file length
+    SectionRel { nth: u8, field: u8, delta: i16 },
     /// every stream length of a data packet set to zero
     PacketZeroStreams { cloud: u8, nth: u8 },
     /// XML length attribute of a blob and its section header length inflated consistently
@@ -162,7 +164,13 @@ pub fn gen_script(s: &mut Src) -> Script {
                 }
             }
             9 => Mut::XmlGarbage { at: s.u16(), text: s.pick(&["<", "&", "]]>", "\u{0}", "<a>", "</e57Root>", "<!--"]).to_string() },
-            10 => Mut::Section { nth: s.below(3) as u8, field: s.below(4) as u8, value: u64_pool(s, len_hint) },
+            10 => {
+                if s.chance(1, 4) {
+                    Mut::SectionRel { nth: s.below(3) as u8, field: 1 + s.below(3) as u8, delta: *s.pick(&[-1024i16, -8, -4, -1, 0, 4, 1024]) }
+                } else {
+                    Mut::Section { nth: s.below(3) as u8, field: s.below(4) as u8, value: u64_pool(s, len_hint) }
+                }
+            }
             11 => Mut::Packet { cloud: s.below(3) as u8, nth: s.below(4) as u8, field: s.below(8) as u8, value: *s.pick(&[0u16, 1, 2, 3, 4, 5, 7, 8, 255, 256, 1019, 65535, 65531, 32768]) },
             12 => Mut::BlobHeader { nth: s.below(4) as u8, field: s.below(2) as u8, value: u64_pool(s, len_hint) },
             13 => Mut::FlipBit { pos: s.u32(), bit: s.byte() },
@@ -284,6 +292,14 @@ fn apply_mut(img: &mut Img, m: &Mut) {
         Mut::HeaderRel { field, delta } => {
             let phys = ((img.log.len() + 1019) / 1020 * 1024) as i128;
             put_u64(&mut img.log, 16 + 8 * (*field as usize % 4), (phys + *delta as i128).max(0) as u64);
+        }
+        Mut::SectionRel { nth, field, delta } => {
+            if !img.clouds.is_empty() {
+                let c = &img.clouds[*nth as usize % img.clouds.len()];
+                let l = c.section_log_start as usize;
+                let phys = ((img.log.len() + 1019) / 1020 * 1024) as i128;
+                put_u64(&mut img.log, l + 8 * (*field as usize % 4).max(1), (phys + *delta as i128).max(0) as u64);
+            }
         }
         Mut::PacketZeroStreams { cloud, nth } => {
             if !img.clouds.is_empty() {
